@@ -4,7 +4,9 @@
 (* writer sessions append segments (TdmsWriter), a crash cuts the file     *)
 (* short, readers open it - eagerly or lazily, with or without the index   *)
 (* file the writer produced - read windows, lengths and chunk streams, and *)
-(* close.  The expected result of every read is a function of the history: *)
+(* close; defragment replaces the file by its tidy copy (which a later     *)
+(* writer session may extend: the way to continue after a crash).  The     *)
+(* expected result of every read is a function of the history:             *)
 (* the values written, up to the cut (TdmsLayout's truncated-chunk rule),  *)
 (* sliced by TdmsDataOps' window semantics.  Behaviours are long random    *)
 (* walks (tlc -simulate) replayed into the real library in a scratch       *)
@@ -20,8 +22,9 @@ VARIABLES segs,      \* segments written so far: Seq([objs, session])
           wopen,
           cut,       \* [kind |-> "none"] or the crash: [kind |-> "leadin"|"meta"|"data", j, b]
           reader,    \* [state |-> "none" | "open" | "closed", mode, idx]
+          base,      \* what the last defragment left: per channel [n |-> values (-1: channel absent), w |-> width (-1: unknown)]
           obs, hist
-vars == <<segs, session, wopen, cut, reader, obs, hist>>
+vars == <<segs, session, wopen, cut, reader, base, obs, hist>>
 
 Chans == {"x", "y"}
 NoneV == -1000
@@ -44,34 +47,42 @@ Surviving(j, c) ==
        ELSE IF \E i \in DOMAIN objs : objs[i].w = 0 THEN 0                     \* unsized data: nothing of the chunk
        ELSE LET fl == ContigLens(objs, 1, cut.b) IN
             Sum([i \in DOMAIN objs |-> IF objs[i].c = c THEN fl[i] ELSE 0])
-LenOf(c) == Sum([j \in DOMAIN segs |-> Surviving(j, c)])
-\* the channel exists for a reader iff some segment naming it has its metadata intact
-Exists(c) == \E j \in DOMAIN segs : /\ \E i \in DOMAIN segs[j].objs : segs[j].objs[i].c = c
-                                    /\ (cut.kind = "none" \/ j < cut.j \/ (j = cut.j /\ cut.kind = "data"))
+LenOf(c) == Max(base[c].n, 0) + Sum([j \in DOMAIN segs |-> Surviving(j, c)])
+\* the channel exists for a reader iff the copy holds it or some segment naming it has its metadata intact
+Exists(c) == \/ base[c].n >= 0
+             \/ \E j \in DOMAIN segs : /\ \E i \in DOMAIN segs[j].objs : segs[j].objs[i].c = c
+                                       /\ (cut.kind = "none" \/ j < cut.j \/ (j = cut.j /\ cut.kind = "data"))
+WidthOf(c) == IF base[c].w >= 0 THEN base[c].w
+              ELSE IF \E j \in DOMAIN segs : \E i \in DOMAIN segs[j].objs : segs[j].objs[i].c = c
+                   THEN LET j == CHOOSE j \in DOMAIN segs : \E i \in DOMAIN segs[j].objs : segs[j].objs[i].c = c
+                            i == CHOOSE i \in DOMAIN segs[j].objs : segs[j].objs[i].c = c
+                        IN segs[j].objs[i].w
+                   ELSE -1
+Readable == (segs # <<>> \/ \E c \in Chans : base[c].n >= 0) /\ ~(cut.kind = "leadin" /\ cut.j = 1 /\ \A c \in Chans : base[c].n < 0)
 Incomplete == cut.kind = "data" /\ cut.b < ChunkBytes(segs[cut.j].objs)
 
 (* --------------------------------- actions --------------------------------- *)
 Init == /\ segs = <<>> /\ session = 0 /\ wopen = FALSE /\ cut = [kind |-> "none"]
         /\ reader = [state |-> "none"] /\ obs = [op |-> "none"] /\ hist = <<>>
+        /\ base = [c \in Chans |-> [n |-> -1, w |-> -1]]
 
 OpenWriter ==
   /\ CanAct /\ ~wopen /\ cut.kind = "none" /\ reader.state # "open" /\ NWrites < MaxWrites
   /\ wopen' = TRUE /\ session' = session + 1
   /\ Record([op |-> "open_writer", mode |-> IF session = 0 THEN "w" ELSE "a"])
-  /\ UNCHANGED <<segs, cut, reader>>
+  /\ UNCHANGED <<segs, cut, reader, base>>
 
 Write ==
   /\ CanAct /\ wopen /\ NWrites < MaxWrites
   /\ \E objs \in ObjChoices :
-       /\ \A j \in DOMAIN segs : \A i \in DOMAIN objs : \A m \in DOMAIN segs[j].objs :
-             segs[j].objs[m].c = objs[i].c => segs[j].objs[m].w = objs[i].w        \* a channel keeps its type
+       /\ \A i \in DOMAIN objs : WidthOf(objs[i].c) \in {-1, objs[i].w}             \* a channel keeps its type
        /\ segs' = Append(segs, [objs |-> objs, session |-> session])
        /\ Record([op |-> "write", objs |-> objs])
-  /\ UNCHANGED <<session, wopen, cut, reader>>
+  /\ UNCHANGED <<session, wopen, cut, reader, base>>
 
 CloseWriter ==
   /\ CanAct /\ wopen /\ wopen' = FALSE /\ Record([op |-> "close_writer"])
-  /\ UNCHANGED <<segs, session, cut, reader>>
+  /\ UNCHANGED <<segs, session, cut, reader, base>>
 
 \* the process dies: the data file keeps a prefix.  The cut is named structurally: in segment j, inside the
 \* lead-in, inside the metadata, or b bytes into the raw data
@@ -81,17 +92,28 @@ Crash ==
        \/ \E k \in {"leadin", "meta"} : cut' = [kind |-> k, j |-> j, b |-> 0]
        \/ \E b \in 0..ChunkBytes(segs[j].objs) : cut' = [kind |-> "data", j |-> j, b |-> b]
   /\ Record([op |-> "crash", cut |-> cut'])
-  /\ UNCHANGED <<segs, session, wopen, reader>>
+  /\ UNCHANGED <<segs, session, wopen, reader, base>>
+
+\* TdmsWriter.defragment(file) -> copy, the copy (with its own index file, as every writer session here keeps one:
+\* appending with an index to a file that has none is a caller error) takes the file's place:
+\* every channel a reader would see, with the values a reader would see; nothing is incomplete any more, and a new
+\* writer session may append to it
+Defragment ==
+  /\ CanAct /\ ~wopen /\ reader.state # "open" /\ Readable /\ segs # <<>>
+  /\ Record([op |-> "defragment", exists |-> [c \in Chans |-> Exists(c)], len |-> [c \in Chans |-> LenOf(c)]])
+  /\ base' = [c \in Chans |-> [n |-> IF Exists(c) THEN LenOf(c) ELSE -1, w |-> WidthOf(c)]]
+  /\ segs' = <<>> /\ cut' = [kind |-> "none"]
+  /\ UNCHANGED <<session, wopen, reader>>
 
 OpenReader ==
-  /\ CanAct /\ ~wopen /\ segs # <<>> /\ reader.state # "open"
-  /\ ~(cut.kind \in {"leadin"} /\ cut.j = 1)                      \* at least the first lead-in survives
+  /\ CanAct /\ ~wopen /\ reader.state # "open"
+  /\ Readable                                                    \* at least the first lead-in survives
   /\ \E m \in {"eager", "lazy"} : \E ix \in BOOLEAN :
        /\ reader' = [state |-> "open", mode |-> m, idx |-> ix]
        /\ Record([op |-> "open_reader", mode |-> m, idx |-> ix,
                   exists |-> [c \in Chans |-> Exists(c)], len |-> [c \in Chans |-> LenOf(c)],
                   incomplete |-> Incomplete])
-  /\ UNCHANGED <<segs, session, wopen, cut>>
+  /\ UNCHANGED <<segs, session, wopen, cut, base>>
 
 ReadWindow ==
   /\ CanAct /\ reader.state = "open"
@@ -100,26 +122,28 @@ ReadWindow ==
            lo == Min(off, L)
            hi == IF len = NoneV THEN L ELSE Min(L, off + len)
        IN Record([op |-> "window", ch |-> c, off |-> off, len |-> len, first |-> lo, count |-> Max(0, hi - lo)])
-  /\ UNCHANGED <<segs, session, wopen, cut, reader>>
+  /\ UNCHANGED <<segs, session, wopen, cut, reader, base>>
 
 ReadChunks ==       \* concatenation of channel.data_chunks() (lazy readers)
   /\ CanAct /\ reader.state = "open" /\ reader.mode = "lazy"
   /\ \E c \in {d \in Chans : Exists(d)} : Record([op |-> "chunks", ch |-> c, first |-> 0, count |-> LenOf(c)])
-  /\ UNCHANGED <<segs, session, wopen, cut, reader>>
+  /\ UNCHANGED <<segs, session, wopen, cut, reader, base>>
 
 CloseReader ==
   /\ CanAct /\ reader.state = "open" /\ reader' = [state |-> "closed", mode |-> reader.mode, idx |-> reader.idx]
   /\ Record([op |-> "close_reader", lazy |-> reader.mode = "lazy"])
-  /\ UNCHANGED <<segs, session, wopen, cut>>
+  /\ UNCHANGED <<segs, session, wopen, cut, base>>
 
-Next == OpenWriter \/ Write \/ CloseWriter \/ Crash \/ OpenReader \/ ReadWindow \/ ReadChunks \/ CloseReader
+Next == OpenWriter \/ Write \/ CloseWriter \/ Crash \/ Defragment \/ OpenReader \/ ReadWindow \/ ReadChunks \/ CloseReader
 Spec == Init /\ [][Next]_vars
 
 (* -------------------------------- properties -------------------------------- *)
 \* nothing is invented and nothing of the segments wholly before the cut is lost
 Bounded == \A c \in Chans :
-  /\ LenOf(c) <= Sum([j \in DOMAIN segs |-> ValsIn(segs[j], c)])
-  /\ cut.kind # "none" => LenOf(c) >= Sum([j \in 1..(cut.j - 1) |-> ValsIn(segs[j], c)])
+  /\ LenOf(c) <= Max(base[c].n, 0) + Sum([j \in DOMAIN segs |-> ValsIn(segs[j], c)])
+  /\ cut.kind # "none" => LenOf(c) >= Max(base[c].n, 0) + Sum([j \in 1..(cut.j - 1) |-> ValsIn(segs[j], c)])
+\* a copy never holds a channel of unknown type with values
+BaseTyped == \A c \in Chans : base[c].n > 0 => base[c].w >= 0
 NoWriteAfterCrash == cut.kind # "none" => ~wopen
 
 GenCase == (GenPrint /\ Len(hist) = MaxHist) => PrintT(<<"GEN", ToJson([hist |-> hist])>>)
